@@ -465,4 +465,11 @@ def rule_no_body_bytes(ctx):
               loc=body_loc(fw))
 
 
-RULES = [rule_atomicity, rule_request_line, rule_header_lines, rule_overflow, rule_header_order, rule_host_and_framing, rule_no_body_bytes]
+def rule_added_total(ctx):
+    """R16.1 (shared with C16): no partial adaptor between the caller-added list and the head writer -- C02's
+    `every effective header` clause for the caller-added part"""
+    from .rules_c16 import rule_adaptors
+    rule_adaptors(ctx)
+
+
+RULES = [rule_atomicity, rule_request_line, rule_header_lines, rule_overflow, rule_header_order, rule_added_total, rule_host_and_framing, rule_no_body_bytes]
